@@ -33,7 +33,11 @@ BIG_SCRIPTS = [
     "T_1 := DS_1 * 2; T_2 := T_1 - DS_2; DS_r <- T_2[filter Me_2 < 100];",
     "DS_r <- DS_1[aggr Me_9 := max(Me_1), Me_8 := count() group by Id_2];",
     "DS_r <- DS_1[calc Me_3 := rank(over (partition by Id_2 order by Id_1))];",
+    "DS_r <- sum(DS_5 group by Id_2);",
+    "DS_r <- sum(DS_5);",
+    "DS_r <- DS_1;",
 ]
+MUST_RUN = ("DS_r <- sum(DS_5 group by Id_2);", "DS_r <- sum(DS_5);", "DS_r <- DS_1;")
 
 
 def big_inputs(rng, n):
@@ -45,8 +49,13 @@ def big_inputs(rng, n):
     m = int(n * 0.7)
     d2 = pd.DataFrame({"Id_1": ids2[:m] + n // 3, "Id_2": (ids2[:m] + n // 3) % 97, "Me_1": rng_np.integers(-1000, 1000, m) / 4.0, "Me_2": rng_np.integers(0, 500, m) / 2.0})
     d1.loc[d1.index % 11 == 0, "Me_1"] = None
+    # values of very different magnitude: a floating-point sum would depend on the order of accumulation (thread count)
+    mag = np.where(ids % 7 == 0, 1e14, np.where(ids % 7 == 3, -1e14, 0.0))
+    d5 = pd.DataFrame({"Id_1": ids, "Id_2": ids % 97, "Me_3": mag + rng_np.integers(1, 1000, n) / 8.0})
     comps = [("Id_1", "Integer", "Identifier", False), ("Id_2", "Integer", "Identifier", False), ("Me_1", "Number", "Measure", True), ("Me_2", "Number", "Measure", True)]
-    return engine.structures(engine.ds_struct("DS_1", comps), engine.ds_struct("DS_2", comps)), {"DS_1": d1, "DS_2": d2}
+    comps5 = comps[:2] + [("Me_3", "Number", "Measure", True)]
+    return (engine.structures(engine.ds_struct("DS_1", comps), engine.ds_struct("DS_2", comps), engine.ds_struct("DS_5", comps5)),
+            {"DS_1": d1, "DS_2": d2, "DS_5": d5})
 
 
 def with_knobs(knob, tmpdir, f):
@@ -80,23 +89,28 @@ def run(ctx):
     engine.install(need_parser=True)
     q = ctx.tier == "quick"
     knobs = KNOBS_Q if q else KNOBS_T
-    n_big = 100_000 if q else 1_000_000
+    n_big = 150_000 if q else 1_000_000   # above DuckDB's row-group / vector batch sizes, not a multiple of them
     hist = {}
     with tempfile.TemporaryDirectory(prefix="c15_") as tmp:
         structs, dps = big_inputs(ctx.rng, n_big)
-        scripts = BIG_SCRIPTS if not q else ctx.rng.sample(BIG_SCRIPTS, 5)
+        scripts = BIG_SCRIPTS if not q else list(MUST_RUN) + ctx.rng.sample([x for x in BIG_SCRIPTS if x not in MUST_RUN], 3)
         for s in scripts:
             sigs = {}
             for kb in knobs:
-                r = with_knobs(kb, tmp, lambda: engine.run_case(s, structs, dps))
+                used = {"datasets": [d for d in structs["datasets"] if d["name"] in s]}
+                udps = {k: v for k, v in dps.items() if k in s}
+                r = with_knobs(kb, tmp, lambda: engine.run_case(s, used, udps))
                 sigs[kb] = sig_hash(r)
                 ctx.count((s, kb))
                 hist[str(kb)] = hist.get(str(kb), 0) + 1
                 if not r["ok"] and r["err"][0] in ("RawDuckDB", "RawPython") and "memory" in r["msg"].lower():
                     sigs.pop(kb)  # the run did not complete (out of memory under the 64MB limit): outside the property
             # repeated run under the first knob
-            r2 = with_knobs(knobs[0], tmp, lambda: engine.run_case(s, structs, dps))
+            r2 = with_knobs(knobs[0], tmp, lambda: engine.run_case(s, used, udps))
             sigs[("repeat",) + knobs[0]] = sig_hash(r2)
+            if r2["ok"] and s == "DS_r <- DS_1;" and len(r2["datasets"]["DS_r"]["rows"]) != len(dps["DS_1"]):
+                ctx.violation("big:identity-loses-datapoints", f"{s} over {len(dps['DS_1'])} rows returns {len(r2['datasets']['DS_r']['rows'])} datapoints",
+                              {"script": s, "rows": len(dps["DS_1"]), "returned": len(r2["datasets"]["DS_r"]["rows"])})
             if len(set(sigs.values())) > 1:
                 ctx.violation("big:" + s[:50], f"{s} over {n_big} rows returns different datapoints under different engine settings / repeated runs",
                               {"script": s, "rows": n_big, "signatures": {str(k): str(v) for k, v in sigs.items()}})
